@@ -388,7 +388,12 @@ class iindex(dict):
                     for colid, col in enumerate(values.T):
                         rowids = numpy.where(col == distinct_value)[0]
                         if len(rowids) > 0:
-                            entries[(mapped_value, colid)] = rowids.astype(rowid_dtype)
+                            rowids = rowids.astype(rowid_dtype)
+                            merged = entries.get((mapped_value, colid))
+                            if merged is not None:
+                                # Another input value maps to the same output.
+                                rowids = union(merged, rowids)
+                            entries[(mapped_value, colid)] = rowids
             else:
                 for distinct_value in counts:
                     mapped_value = distinct_value
@@ -398,7 +403,12 @@ class iindex(dict):
                         continue
                     rowids = numpy.where(values == distinct_value)[0]
                     if len(rowids) > 0:
-                        entries[(mapped_value,)] = rowids.astype(rowid_dtype)
+                        rowids = rowids.astype(rowid_dtype)
+                        merged = entries.get((mapped_value,))
+                        if merged is not None:
+                            # Another input value maps to the same output.
+                            rowids = union(merged, rowids)
+                        entries[(mapped_value,)] = rowids
         else:
             # This is sometimes faster than repeated numpy.where().
             entries = defaultdict(list)
